@@ -929,10 +929,9 @@ func (s *State) evalForInteger(fe *ast.ForExpression, start *int64, end int64, n
 		register, newBody, ok = setupRegister(s.env, name, int64(startValue), fe.Body)
 		// Release on every way out of the loop (break, return, error, panic), not just normal completion.
 		defer s.env.ReleaseRegister(register)
-		if !ok {
-			return s.Errorf("for loop register %s shouldn't be modified inside the loop", name)
-		}
-		ptr = register.Ptr()
+		if ok {
+			ptr = register.Ptr()
+		} // else: body modifies the variable or captures it in a function: use a regular variable like NoReg does.
 	}
 	for i := startValue; i < endValue; i++ {
 		if ptr == nil && name != "" {
